@@ -83,7 +83,7 @@ def cut_offset(ch, cls, total):
 
 
 class IpcEnv:
-    def __init__(self, ch, max_steps=30000, peer="real", lines=0):
+    def __init__(self, ch, max_steps=30000, peer="real", lines=0, hot=(), hot_budget=0):
         import klongpy.sys_fn_ipc as ipc
         self.ipc = ipc
         self.ch = ch
@@ -105,7 +105,7 @@ class IpcEnv:
             self.server = None
             self.peer = ScriptedPeer(self)
         if lines:
-            self.w.enable_line_preemption([ipc.__file__], lines, gap=50)
+            self.w.enable_line_preemption([ipc.__file__], lines, gap=50, hot=hot, hot_budget=hot_budget)
 
     # ---- wire observation and cut placement ---------------------------------
     def _wrap_send(self):
